@@ -560,7 +560,7 @@ def register(R: Registry):
 # contract: the three loops simply execute.  The postconditions are the same clauses of the property, evaluated over the LOG OF THE
 # CALLBACK CALLS ACTUALLY MADE, so they do not rest on any invariant: a change of a loop body that the symbolic-size proof can only
 # report as "invariant no longer provable" (internal obligation, exit 2) shows here as a counter-model of a postcondition.
-NMAX = 4
+NMAX = 5
 
 
 def parent_tables(nmax=NMAX):
@@ -925,6 +925,118 @@ def register_wrappers(R):
           ensures=[("traverses-the-owning-tree-starting-at-this-node", tn_post)])
 
 
+# =========================================================================== composition: the three entry points END TO END on small tables
+# "Tree.traverse = _traverse_dfs with Node-wrapped callbacks" (and swc_utils.traverse = _traverse_dfs, Tree.Node.traverse = Tree.traverse
+# from this node) as OBLIGATIONS: a further registration of each entry point on every parent table of at most COMP_NMAX nodes x every
+# start node, with the callees INLINED from the repository (`inline_calls`: nothing is taken from the modular contracts above), arbitrary
+# user callbacks, and the clauses of the property itself (the same `fixed_post` clauses, same names) evaluated over the log of the calls
+# the USER's callbacks received -- for the tree entry points with the node handles read back to node ids, plus the clause that every
+# handle is a handle of this very tree.  Delegation + wrapper transparency (the symbolic-size clauses above) are thereby tied to the
+# property for the whole call chain at these sizes.
+COMP_NMAX = 4
+COMP_INLINE = ["swc_utils/base.py:traverse", "swc_utils/base.py:_traverse_dfs", "core/tree.py:Tree.traverse"]
+
+
+def fixed_tree(S, pid, name="t"):
+    """a Tree whose id / pid columns are the given concrete table (id[i] = i); the other columns symbolic; frozen"""
+    from contracts.common import COLS
+    from pyvc.values import NArr
+    from swcgeom.core.swc_utils import get_names, get_types
+    from swcgeom.core.tree import Tree
+
+    n, cols = len(pid), {}
+    for c, k in COLS.items():
+        its = list(range(n)) if c == "id" else list(pid) if c == "pid" else [S.int(f"{name}_{c}{i}") if k == "int" else S.real(f"{name}_{c}{i}") for i in range(n)]
+        a = NArr((n,), its, k)
+        a.frozen = True
+        cols[c] = a
+    nd = PDict(cols)
+    nd.frozen = True
+    t = S.obj(Tree, ndata=nd, names=get_names(), types=get_types(), source="", comments=PList([]))
+    t.frozen = True
+    return t
+
+
+def comp_setup(entry, pid, root, enter_given, leave_given):
+    def f(S):
+        from pyvc.values import NArr
+
+        n = len(pid)
+        log = Log(pid, root)
+        log.handles_ok = True
+        tree = fixed_tree(S, pid) if entry != "traverse" else None
+
+        def node_of(x):
+            if tree is None:
+                return _node(x)
+            # the tree entry points hand out node handles: read the node id back, and check whose handle it is
+            if not (isinstance(x, Obj) and x.fields.get("attach") is tree):
+                log.handles_ok = False
+                return x
+            return _node(x.fields["idx"])
+
+        def enter_model(E, args, kwargs):
+            v = fresh("oref", "entv")
+            log.events.append(("enter", node_of(args[0]), args[1] if len(args) > 1 else kwargs, v, None, None))
+            return v
+
+        def leave_model(E, args, kwargs):
+            ch = args[1] if len(args) > 1 else None
+            v = fresh("oref", "lefv")
+            items = list(ch.items) if isinstance(ch, PList) and ch.items is not None else None
+            log.events.append(("leave", node_of(args[0]), ch, v, items, getattr(ch, "uid", None)))
+            return v
+
+        cbs = {}
+        if enter_given:
+            cbs["enter"] = Callback("enter", enter_model)
+        if leave_given:
+            cbs["leave"] = Callback("leave", leave_model)
+        shown = dict(enter=cbs.get("enter"), leave=cbs.get("leave"), F=log)  # what the clauses read (`fixed_post`)
+        if entry == "traverse":
+            ids, pids = NArr((n,), list(range(n)), "int"), NArr((n,), list(pid), "int")
+            ids.frozen = pids.frozen = True
+            return dict(topology=(ids, pids), kwargs=PDict(dict(cbs, root=root)), __ghost__=shown)
+        if entry == "Tree.traverse":
+            return dict(self=tree, enter=cbs.get("enter"), leave=cbs.get("leave"), kwargs=PDict(dict(root=root)), __ghost__=shown)
+        from swcgeom.core.tree import Tree
+
+        return dict(self=S.obj(Tree.Node, attach=tree, idx=root, names=tree.fields["names"]), kwargs=PDict(cbs), __ghost__=shown)
+
+    return f
+
+
+def comp_post(which):
+    inner = fixed_post(which) if which != "callbacks-receive-handles-of-this-very-tree" else None
+
+    def f(E, v, o):
+        if "F" not in E.spec_extra:
+            return True  # at a call site of the entry point (another registration's business)
+        vv = dict(v)
+        vv.update(E.spec_extra)  # enter / leave / F as the setup handed them in, whatever the entry point calls its parameters
+        if inner is None:
+            return bool(E.spec_extra["F"].handles_ok)
+        return inner(E, vv, o)
+
+    return f
+
+
+def register_composition(R):
+    posts = ["enter-exactly-once-per-subtree-node-and-never-outside", "leave-exactly-once-per-subtree-node-and-never-outside",
+             "enter-after-parent-with-the-parents-value", "leave-after-all-children-with-exactly-their-values",
+             "leave-receives-a-list-of-its-own-at-every-call", "returns-the-start-nodes-value", "callbacks-receive-handles-of-this-very-tree"]
+    for entry, key in (("traverse", f"{BASE}:traverse"), ("Tree.traverse", f"{TREE}:Tree.traverse"), ("Tree.Node.traverse", f"{TREE}:Tree.Node.traverse")):
+        variants = {}
+        for pid in parent_tables(COMP_NMAX):
+            for root in range(len(pid)):
+                for nm, (e, l) in (("enter+leave", (True, True)), ("enter-only", (True, False)), ("leave-only", (False, True))):
+                    if (e and l) or len(pid) <= 3:  # a missing callback changes nothing in the wrappers: the single-callback runs stop at 3 nodes
+                        variants[f"end to end: table {list(pid)} start {root} {nm}"] = comp_setup(entry, pid, root, e, l)
+        R.add(key, prop="C04", variants=variants, ensures=[(nm, comp_post(nm)) for nm in posts],
+              options=dict(truth_hook=truth_of_callback_values, recursion_limit_model=True, inline_calls=COMP_INLINE, modular_traverse_ok=True),
+              notes=f"end to end on every parent table of at most {COMP_NMAX} nodes: callees inlined, the property's clauses over the calls the user's callbacks received")
+
+
 _reg0 = register
 
 
@@ -932,6 +1044,7 @@ def register(R):  # noqa: F811
     _reg0(R)
     register_fixed(R)
     register_wrappers(R)
+    register_composition(R)
 
 
 def lemmas():
